@@ -539,11 +539,15 @@ impl DegreeSequence for AdjacencyMatrix {
 impl Empty for AdjacencyMatrix {
     /// # Panics
     ///
-    /// Panics if `order` is zero.
+    /// * Panics if `order` is zero.
+    /// * Panics if `order * order` overflows `usize`.
     fn empty(order: usize) -> Self {
         assert!(order > 0, "a digraph has at least one vertex");
 
-        let n = (order * order).div_ceil(64);
+        let n = order
+            .checked_mul(order)
+            .expect("a matrix has at most `usize::MAX` cells")
+            .div_ceil(64);
 
         Self {
             blocks: vec![0; n],
